@@ -7,3 +7,5 @@ from . import bip143  # noqa
 from . import block  # noqa
 from . import script  # noqa
 from . import p2p  # noqa
+from . import ec  # noqa
+from . import der  # noqa
